@@ -200,8 +200,8 @@ namespace
     Counter cl_onlyif("clause", "1_only_if(arch,boot)"), cl_mono("clause", "2_monotone_on_closed(child,parent,boot)"), cl_ud("clause", "3_no_xgetbv_ud(boot)"),
         cl_stable("clause", "4_stable_within_boot(compare)"), cl_disp("clause", "5_dispatch_judged"), cl_disp_vac("clause", "5_dispatch_vacuous_none_available");
     Counter p_closed("probe", "closed_configurations"), p_nonclosed("probe", "non_closed_configurations"), p_bits_no_state("probe", "arch_with_bits_but_os_state_disabled"),
-        p_fall5("probe", "dispatch_fell_through_5_or_more"), p_last("probe", "dispatch_chose_last_member"), p_underreport("probe", "bits_and_state_present_but_not_reported"),
-        p_reboot_changed("probe", "reboot_changed_report"), p_osx_off("probe", "boots_with_osxsave_off"), p_other_leaf("probe", "detector_asked_leaf_outside_the_four");
+        p_fall5("probe", "dispatch_fell_through_5_or_more"), p_last("probe", "dispatch_chose_last_member"), p_underreport("info", "bits_and_state_present_but_not_reported(permitted:the_property_says_only_if)"),
+        p_reboot_changed("probe", "reboot_changed_report"), p_osx_off("probe", "boots_with_osxsave_off"), p_other_leaf("info", "detector_asked_leaf_outside_the_four(would_be_served_stable_junk)");
 
     sim::DistinctSet d_cfg_report("cfg_report_pairs"), d_nontrivial("nontrivial_cfg_projections"), d_disp("dispatch_paths");
 
